@@ -261,11 +261,13 @@ func (lh *WorkerLoop) onNewConsensusRound(prevBlock interfaces.Block, prevBlockP
 	lh.logger.ConsensusTrace("starting a new consensus round", nil)
 
 	lh.leanHelixTerm = leanhelixterm.NewLeanHelixTerm(ctx, lh.logger, lh.config, lh.state, lh.electionTrigger, lh.onCommit, prevBlock, prevBlockProofBytes, canBeFirstLeader)
+	// report the round before its cached messages are handled: one of them may commit this height and start the
+	// next round from within ConsumeCacheMessages, and rounds must be reported in order, each with its own height
+	if lh.onNewConsensusRoundCallback != nil {
+		lh.onNewConsensusRoundCallback(ctx, current.Height(), prevBlock, canBeFirstLeader)
+	}
 	lh.logger.Debug("onNewConsensusRound() Calling ConsumeCacheMessages for H=%d", lh.state.Height())
 	lh.filter.ConsumeCacheMessages(lh.leanHelixTerm)
-	if lh.onNewConsensusRoundCallback != nil {
-		lh.onNewConsensusRoundCallback(ctx, lh.state.Height(), prevBlock, canBeFirstLeader)
-	}
 }
 
 func (lh *WorkerLoop) cleanupCurrentTerm() {
